@@ -608,6 +608,10 @@ func (hs *serverHandshakeStateTLS13) doHelloRetryRequest(selectedGroup CurveID) 
 	if byz := c.config.Byz; byz != nil && len(byz.HRRCookie) > 0 {
 		helloRetryRequest.cookie = byz.HRRCookie
 	}
+	if byz := c.config.Byz; byz != nil && byz.AfterHRR {
+		helloRetryRequest.sessionId = hs.clientHello.sessionId
+		helloRetryRequest.compressionMethod = compressionNone
+	}
 
 	if hs.echContext != nil {
 		// Compute the acceptance message.
@@ -807,6 +811,10 @@ func (hs *serverHandshakeStateTLS13) sendServerParameters() error {
 	if byz := c.config.Byz; byz != nil && byz.ForcePSK && !hs.usingPSK {
 		hs.hello.selectedIdentityPresent = true
 		hs.hello.selectedIdentity = byz.ForcePSKIndex
+	}
+	if byz := c.config.Byz; byz != nil && byz.SelectedIdentitySet && hs.usingPSK {
+		byz.note("announcing selected_identity %d instead of %d", byz.SelectedIdentity, hs.hello.selectedIdentity)
+		hs.hello.selectedIdentity = byz.SelectedIdentity
 	}
 	if _, err := hs.c.writeHandshakeRecord(hs.hello, hs.transcript); err != nil {
 		return err
